@@ -1,5 +1,5 @@
 #!/bin/bash
-# usage: tools/seed_regression.sh [jobs]   - re-runs every kept seeded change (seeded/<Cxx>-*/patch.diff) against ./check Cxx on a
+# usage: tools/seed_regression.sh [jobs [egrep-pattern on the seed directory name]]   - re-runs every kept seeded change (seeded/<Cxx>-*/patch.diff) against ./check Cxx on a
 # scratch copy and prints one line per seed: DETECTED (natively reproduced | no-failing-input-found) / MISSED / UNDECIDED / BROKEN
 cd "$(dirname "$0")/.."
 J=${1:-4}
@@ -21,4 +21,4 @@ one() {
   rm -rf $S
 }
 export -f one
-ls -d seeded/C*/ | xargs -P $J -I{} bash -c 'one {}'
+ls -d seeded/C*/ | grep -E "${2:-.}" | xargs -P $J -I{} bash -c 'one {}'
